@@ -16,5 +16,8 @@ func controlsC18() []Control {
 		{Name: "bot stays silent when asked", Expect: "R3", Mutate: replaceIn("(*botRunner).requestAI", "\tcase \"check\":\n\t\terr := br.actions.Check()\n\t\tif err != nil {\n\t\t\treturn err\n\t\t}\n", "\tcase \"check\":\n\t\tvar err error\n\t\tif err != nil {\n\t\t\treturn err\n\t\t}\n", 0)},
 		{Name: "bot pays the ante amount for a blind", Expect: "R4", Mutate: replaceIn("(*botRunner).requestMove", "return br.actions.Pay(gs.Meta.Blind.BB)", "return br.actions.Pay(gs.Meta.Ante)", 0)},
 		{Name: "delayed move ignores cancellation", Expect: "R3", Mutate: replaceIn("(*botRunner).requestMove", "\t\tif isCancelled {\n\t\t\treturn\n\t\t}\n\n\t\tbr.requestAI(gs, playerIdx)", "\t\t_ = isCancelled\n\t\tbr.requestAI(gs, playerIdx)", 0)},
+		{Name: "a view with the same time stamp is acted on again", Expect: "R6", Mutate: replaceIn("(*botRunner).UpdateTableState", "br.lastGameStateTime >= gs.UpdatedAt", "br.lastGameStateTime > gs.UpdatedAt", 0)},
+		{Name: "bot forgets the time of the view it acted on", Expect: "R6", Mutate: replaceIn("(*botRunner).UpdateTableState", "\t\tbr.lastGameStateTime = gs.UpdatedAt\n", "", 0)},
+		{Name: "bot returns early when its bet succeeded and goes on when it failed", Expect: "R3", Mutate: replaceIn("(*botRunner).requestAI", "err := br.actions.Bet(chips)\n\t\tif err != nil {", "err := br.actions.Bet(chips)\n\t\tif err == nil {", 0)},
 	}
 }
